@@ -20,6 +20,13 @@ def prepare(slice_):
         p["_cfg"] = {m: frozenset(e) for m, e in by.items()}       # built natively, outside tracing
 
 
+def units_of(p):
+    """the program's own unit as module `m`, plus the other analysed files it imports (multi-file programs)"""
+    u = {"m": p["rows"]}
+    u.update(p.get("extra_rows") or {})
+    return u
+
+
 def run_cpython(i, args):
     outs = []
 
@@ -36,7 +43,7 @@ def run_cpython(i, args):
 
 def run_gir(i, args, hooks=None):
     p = BATCH["programs"][i]
-    it = Interp({"m": p["rows"]}, hooks=hooks, fuel=2500)
+    it = Interp(units_of(p), hooks=hooks, fuel=2500)
     try:
         ret = it.call_entry("m", "f", args)
         return it.outs, ret, None
@@ -125,7 +132,7 @@ def prescreen(batch_path):
             if not in_bounds(i, args[0], args[1]):
                 continue
             try:
-                it = Interp({"m": p["rows"]})
+                it = Interp(units_of(p))
                 it.call_entry("m", "f", args)
             except OutOfVocabulary as e:
                 status = f"out-of-vocabulary: {e}"
@@ -557,7 +564,7 @@ def covers(states, v):
 
 def run_module(i, inputs, hooks):
     p = BATCH["programs"][i]
-    it = Interp({"m": p["rows"]}, hooks=hooks, fuel=2500, inputs=list(inputs))
+    it = Interp(units_of(p), hooks=hooks, fuel=2500, inputs=list(inputs))
     try:
         it.load_module("m")
         return None
@@ -846,7 +853,7 @@ def flow_tables(i):
 def taint_violation(i, args):
     flows = flow_tables(i)
     p = BATCH["programs"][i]
-    it = Interp({"m": p["rows"]}, fuel=2500, inputs=list(args))
+    it = Interp(units_of(p), fuel=2500, inputs=list(args))
     try:
         it.load_module("m")
     except GirError:
@@ -904,7 +911,7 @@ def dep_oracle_violation(i, args):
     dep = p.get("_dep")
     if dep is None:
         dep = p["_dep"] = frozenset((a, b, c) for a, b, c in p.get("dep", []))
-    it = Interp({"m": p["rows"]}, fuel=2500, inputs=list(args))
+    it = Interp(units_of(p), fuel=2500, inputs=list(args))
     try:
         it.load_module("m")
     except GirError:
